@@ -18,6 +18,17 @@ CLAIMS = {
          "These are necessary conditions of 'never wedges' that hold for every schedule and cancellation point at once, which no test run can show.",
          "termination of the walks themselves, blocking inside badger/logger/gRPC, fairness of RWMutex",
          "go/ssa path obligations (edge-cut reachability) + must-hold locksets + derived library lock summaries"),
+ "C15": ("DESIGN.md §3 C15",
+         "Static wire-input safety analysis over all message shapes at once: every slice→array conversion in the wire-facing packages is dominated by a length test on the same access path "
+         "(directly, via validator ensures-summaries, or at every caller), every dereference through an optional protobuf sub-message is dominated by a nil test, len-relative slice bounds in address decoding are covered, "
+         "handlers are discovered through types.Implements, and no validation is reachable after an effectful call in any handler. A test can only sample message shapes; the rule covers every path.",
+         "panics unrelated to message shape, resource exhaustion, failures after validation (CreateLeaf error after awaiting entry removed), library internals",
+         "go/ssa must-fact analysis (length / non-nil facts on access paths, edge-cut dominance, interprocedural ensures/requires summaries)"),
+ "C20": ("DESIGN.md §3 C20",
+         "Static analysis of the wallet read path: the nonce split in Decrypt is covered by a dominating length fact for every input length, plaintext is returned only as AEAD.Open's result behind its success edge, "
+         "seal/open agree on the nonce size, and ReadWallet/ReadFromPem/DecodeGOBWallet report success only behind the success edge of every fallible step.",
+         "round-trip equality, detection of wrong key / altered bytes (AES-GCM's guarantee, trusted), gob on hostile input",
+         "go/ssa must-fact bounds analysis + error-discipline path obligations"),
 }
 
 NA = {
